@@ -879,17 +879,66 @@ func ruleL8(p *Prog, r *Report) {
 			} else if cv, inCallee, ok := constructorField(st.Val, "header", "slabID"); ok && !inCallee {
 				// fresh slab built by a private constructor: the id it is given
 				idv = cv
-			} else {
-				// existing slab promoted: SetSlabID(id) on the new root on every success path after the store
-				var setID ssa.CallInstruction
-				bad := successReturnAvoiding(f, in, func(y ssa.Instruction) bool {
-					c, ok := y.(ssa.CallInstruction)
-					if ok && calleeName(c) == "SetSlabID" && (isRootOf(callRecv(c), recv) || sameValue(callRecv(c), st.Val)) {
-						setID = c
+			} else if g, lit, call, ok := constructorLiteral(st.Val); ok && rootIDFromParam(g, lit, call, recv) {
+				// fresh slab built by a private constructor that is handed the previous root and reads its id itself: the
+				// read happens at the call
+				clean := true
+				why := ""
+				entry := f.Blocks[0].Instrs[0]
+				reachBackFrom(f, call, func(y ssa.Instruction) bool {
+					if cc, ok := y.(ssa.CallInstruction); ok && calleeName(cc) == "SetSlabID" {
+						clean, why = false, "SetSlabID at "+p.InstrPos(y)+" precedes the read of the root id"
 						return true
 					}
-					return false
+					if s2, ok := y.(*ssa.Store); ok {
+						if fr2, ok := asFieldAddr(s2.Addr); ok && fr2.Field == "root" && !isFreshBase(fr2.Base) {
+							clean, why = false, "the root was already replaced at "+p.InstrPos(y)
+							return true
+						}
+					}
+					return y == entry
 				})
+				r.Decide(clean, R, cons, p.InstrPos(in), "the replacing root is built from the previous root (its constructor reads the id from it) before any id change", "root id not preserved: "+why)
+				return
+			} else {
+				// existing slab promoted: SetSlabID(id) on the new root on every success path after the store - or the one
+				// SetSlabID the promoted slab received before it was stored (it dominates the store)
+				var setID ssa.CallInstruction
+				var pre []ssa.CallInstruction
+				eachInstr(f, func(y ssa.Instruction) {
+					if c, ok := y.(ssa.CallInstruction); ok && calleeName(c) == "SetSlabID" && callRecv(c) != nil && (sameValue(callRecv(c), st.Val) || canon(callRecv(c)) == x) {
+						pre = append(pre, c)
+					}
+				})
+				if len(pre) == 1 {
+					pb := pre[0].Block()
+					before := pb != in.Block() && pb.Dominates(in.Block())
+					if pb == in.Block() {
+						for _, z := range pb.Instrs {
+							if z == ssa.Instruction(pre[0]) {
+								before = true
+								break
+							}
+							if z == in {
+								break
+							}
+						}
+					}
+					if before {
+						setID = pre[0]
+					}
+				}
+				bad := (*ssa.Return)(nil)
+				if setID == nil {
+					bad = successReturnAvoiding(f, in, func(y ssa.Instruction) bool {
+						c, ok := y.(ssa.CallInstruction)
+						if ok && calleeName(c) == "SetSlabID" && (isRootOf(callRecv(c), recv) || sameValue(callRecv(c), st.Val)) {
+							setID = c
+							return true
+						}
+						return false
+					})
+				}
 				if bad != nil || setID == nil {
 					r.Bad(R, cons, p.InstrPos(in), "a different slab becomes the root without SetSlabID(root id) on every success path: the container would change its identifier")
 					return
@@ -1705,4 +1754,27 @@ func isEmptyValueID(v ssa.Value) bool {
 	}
 	g, ok := u.X.(*ssa.Global)
 	return ok && g.Name() == "emptyValueID"
+}
+
+// rootIDFromParam: the constructor g gives its literal the slab id `P.SlabID()` of a parameter P, and the call hands
+// it the receiver's current root for P.
+func rootIDFromParam(g *ssa.Function, lit *ssa.Alloc, call *ssa.Call, recv ssa.Value) bool {
+	fv := litField(g, lit, "header", "slabID")
+	if fv == nil {
+		return false
+	}
+	c, ok := canon(fv).(*ssa.Call)
+	if !ok || calleeName(c) != "SlabID" || callRecv(c) == nil {
+		return false
+	}
+	prm, ok := canon(callRecv(c)).(*ssa.Parameter)
+	if !ok {
+		return false
+	}
+	for i, q := range g.Params {
+		if q == prm && i < len(call.Call.Args) {
+			return isRootOf(call.Call.Args[i], recv)
+		}
+	}
+	return false
 }
